@@ -134,7 +134,12 @@ func TestC05(t *testing.T) {
 			if size >= len(marker) {
 				markers = append(markers, marker)
 			}
-			f, err := sender.Builder.NewFrameV1(sender.IP(), receiver.IP(), mt, nil, payload, nil)
+			// Frames carry switch blocks of every legal size now and then.
+			var sw []byte
+			if i < 1000 && c.Chance("sw", 1, 4) {
+				sw = c.Bytes("sw.bytes", core.OneOf(c, "sw.len", 1, 2, 10, 127, 128, 200, 254, 255))
+			}
+			f, err := sender.Builder.NewFrameV1(sender.IP(), receiver.IP(), mt, sw, payload, nil)
 			if err != nil {
 				c.Fatalf("frame: %v", err)
 			}
